@@ -136,6 +136,15 @@ def run(c, chk):
     # the helper that prints a quoted string must be the same escaping loop: every fprintf("\"") pair encloses only escaped output
     chk.floor('R5.2 print functions scanned', len([f for f in c.confuse.funcs.values() if any(True for _ in f.calls('fprintf'))]), 4)
 
+    # ---- R5.4: what is printed for a list reads back as that list ------------------------------
+    chk.rule('R5.4', 'a list option is never written commented out (an empty list must read back as empty, not as its default)')
+    from . import c19
+    ins = c19.list_commented_out(c)
+    if ins is not None:
+        chk.fail('R5.4', 'list-commented', c.where(ins), 'a list option can be written as "# name = {...}": the reader takes that line for a comment and the list gets its declared default back')
+    else:
+        chk.ok('R5.4', 'list layout', 'no path of the per-option printer writes the comment marker for a list option')
+
     # ---- R5.3 ---------------------------------------------------------------------------------
     cw = None
     for call in opf.calls('fprintf'):
